@@ -660,7 +660,7 @@ impl<'a> Exec<'a> {
                 }
             }
             Op::Rst { c, how } => {
-                if let Some(mut cn) = self.conns.remove(c) {
+                if let Some(cn) = self.conns.remove(c) {
                     if how == "unread" {
                         // close with unread data: wait (bounded) until something is there to leave unread
                         if !cn.lo.is_empty() && cn.buf.is_empty() {
@@ -859,14 +859,24 @@ fn vector_ops(w: usize, emb: &Embedding, idx: usize, all_paths: bool) -> Vec<Op>
         let c = 1 + (i % 3) as i64;
         ops.push(Op::Connect { c, peer: emb.addr(&bits) });
         let paths: Vec<&str> = if all_paths { classes.to_vec() } else { vec![classes[(i + idx) % classes.len()]] };
-        for p in &paths {
-            ops.push(Op::Get { c, path: p.to_string() });
-        }
         if i % 4 == 1 {
+            // pipelined: all requests, a counter bump while they are outstanding, then all responses
+            for p in &paths {
+                ops.push(Op::Get { c, path: p.to_string() });
+            }
             ops.push(Op::Bump { n: 1 + (i as u64 % 3) });
-        }
-        for _ in &paths {
-            ops.push(Op::Read { c });
+            for _ in &paths {
+                ops.push(Op::Read { c });
+            }
+        } else {
+            // keep-alive: request / response pairs on one connection
+            for (j, p) in paths.iter().enumerate() {
+                ops.push(Op::Get { c, path: p.to_string() });
+                if (i + j) % 5 == 0 {
+                    ops.push(Op::Bump { n: 1 });
+                }
+                ops.push(Op::Read { c });
+            }
         }
         ops.push(Op::Close { c });
     }
@@ -1042,7 +1052,8 @@ fn random_program(rng: &mut rand::rngs::StdRng, idx: usize, plain_permille: u32)
         if kind == 2 && r == 1 {
             // concurrent scrapers while faults go on
             let mut faults = vec![];
-            random_faults(rng, &mut slots, &peers, rng.random_range(3..=8), &mut faults, false);
+            let nfp = rng.random_range(3..=8);
+            random_faults(rng, &mut slots, &peers, nfp, &mut faults, false);
             ops.push(Op::Par { scrapers: rng.random_range(4..=8), each: rng.random_range(3..=6), peers: peers.clone(), faults });
         } else {
             random_faults(rng, &mut slots, &peers, nf, &mut ops, true);
